@@ -31,6 +31,12 @@ def run(ctx, prop=PROP, judge=None, what=WHAT):
         which = r.choice(["o", "o", "e"])
         cases.append("out %s %d %s %s" % (which, labels, hexs(host), outeng.gen_chunking(r, s)))
         meta.append((s, host, labels, which))
+    # the 128 KiB line limit, exactly (one piece and 1000-byte pieces)
+    for L in (131070, 131071):
+        s = b"x\n" + bytes([97 + (i % 26) for i in range(L)]) + b"\ntail\n"
+        for items in (["A" + hexs(s)], ["A" + hexs(s[i:i + 1000]) for i in range(0, len(s), 1000)]):
+            cases.append("out o 0 %s %s" % (hexs(b"n1"), "/".join(items + ["E"])))
+            meta.append((s, b"n1", 0, "o"))
     if not quick:
         # exhaustive: every chunking of every stream of length <= 7 over {a, \n}
         import itertools
@@ -89,15 +95,81 @@ def run(ctx, prop=PROP, judge=None, what=WHAT):
                 samples.append({"stream": s.decode("latin-1"), "host": host.decode(), "labels": labels, "chunks": cases[i].split(" ")[4][:120], "impl": io[:160]})
         if bad >= 6:
             break
+    # ---- part B: many hosts streaming at once, whole program under the controlled scheduler ----
+    nsched = 0
+    if bad < 6:
+        nsched, bad2 = sched_part(ctx, r, quick, judge)
+        bad += bad2
+    dist["sched_runs_many_hosts"] = nsched
     have_input = any(v["kind"] != "no-failing-input-found" for v in ctx.violations)
     vlib.report_proof_break(ctx, have_input)
     cov = vlib.proof_coverage(ctx, {
-        "evaluations": len(cases), "distinct_nontrivial": len(set(cases)),
+        "evaluations": len(cases) + nsched, "distinct_nontrivial": len(set(cases)),
         "rule": "per-host byte streams (lines of 0..20000 bytes - up to 131072 in thorough -, empty lines, unterminated tails of 0/1/8190..8193/3*8191+5 bytes, buffer growth points) cut into read chunks (whole, per byte, at/after newlines, random) with EAGAIN sprinkled, fed through the real _handle_rcmd_stdout/_stderr + _flush_output with stdio calls captured; judged for " + what + "; distinct = distinct (stream, chunking, host, flags)",
         "samples": samples, "input_distribution": dist, "corpus_cases": ncorpus, "disagreements": bad})
     return ctx.finish(cov, ["read(2), close(2) and fputs(3) intercepted at link time; one fputs = one atomic append (stdio lock, trusted)",
                             "poll/EINTR and the thread interleaving are covered by the sched engine, not here",
                             "NUL bytes, lines over 128 KiB and the return-code marker are outside the property's domain"])
+
+
+NAMESETS = [[b"n1", b"n2", b"n3"], [b"foo", b"foo1", b"foo-ib"], [b"a.dom", b"b.dom"], [b"a.x.org", b"b.y.org", b"c"], [b"10.0.0.1", b"10.0.0.2"],
+            [b"h1.d", b"h2.d", b"h3.d", b"h4.d"], [b"n1", b"n10", b"n100"], [b"a", b"ab", b"abc", b"abcd"]]
+
+
+def sched_part(ctx, r, quick, judge):
+    import schedeng
+    eng = schedeng.Sched(ctx)
+    bad = 0
+    nrun = 150 if quick else 4000
+    for k in range(nrun):
+        names = r.choice(NAMESETS)
+        doms = set(n[n.index(b"."):] for n in names if b"." in n)
+        keep = len(doms) > 1
+        hosts, streams = [], {}
+        for nm in names:
+            so = outeng.gen_stream(r) if r.chance(4, 5) else b""
+            se = outeng.gen_stream(r) if r.chance(1, 3) else b""
+            if len(so) > 3000:
+                so = so[:3000]
+            if len(se) > 3000:
+                se = se[:3000]
+            streams[nm] = (so, se)
+            def items(s):
+                if not s:
+                    return "-"
+                cuts = sorted(set(r.range(1, max(1, len(s) - 1)) for _ in range(r.range(0, 3)))) if len(s) > 1 else []
+                out, prev = [], 0
+                for c in cuts + [len(s)]:
+                    if c > prev:
+                        out.append("A" + hexs(s[prev:c])); prev = c
+                return "/".join(out)
+            hosts.append((nm.decode(), "o", items(so), items(se), 0))
+        ru = eng.run(["-R", "sim", "-f", str(r.range(1, len(names))), "-w", b",".join(names).decode(), "cmd"], hosts, seed=r.next() % (1 << 31))
+        who2host = {}
+        for st, kind, f in ru.events:
+            if kind == "CONNBEGIN":
+                who2host[f[0]] = f[2].encode()
+        problem = None
+        if ru.exit is None or ru.deadlock:
+            problem = "pdsh did not finish: " + ru.errtxt[-150:]
+        else:
+            for who, nm in who2host.items():
+                for stream, idx in (("out", 0), ("err", 1)):
+                    calls = [b for st, w, sname, b in ru.outs if w == who and sname == stream and not (stream == "err" and b.startswith(b"pdsh@"))]
+                    e = judge(streams[nm][idx], nm, 1, keep, calls)
+                    if e:
+                        problem = "host %r %s: %s" % (nm, stream, e)
+                        break
+                if problem:
+                    break
+        if problem:
+            bad += 1
+            ctx.violation("schedule", case={"names": [n.decode() for n in names], "hosts": hosts, "seed": ru.seed, "schedule": [c for c in ru.choices if c != "sig"]},
+                          expected="every host's records, whole and under its own label", observed=ru.summary(), engine="sched",
+                          detail=problem + "; several hosts streaming at once, schedule of %d steps" % len(ru.choices))
+            if bad >= 3:
+                break
+    return nrun, bad
 
 
 def replay(ctx, path):
